@@ -216,7 +216,13 @@ fn eval_key<I: Inputs>(vt: &'static Vt<I>, d: &Doc, sig: &dyn Fn(&Doc, &str) -> 
             if !vt.model.builtin_only() {
                 return Outcome::ok(false, "map-key-accepted-nonidempotent-sanitizer");
             }
+            let has_custom_san = vt.model.sans.iter().any(|s| matches!(s, San::With { .. }));
             for v in &vals {
+                // chains with a custom function need not be idempotent as a chain (truncate, then uppercase):
+                // the fixed-point oracle applies only where the reference model maps the value to itself
+                if has_custom_san && !matches!(model::construct(vt.model, v.clone()), Ok(ref x) if x.same(v)) {
+                    continue;
+                }
                 match no_panic(|| (vt.ctor)(v.clone())) {
                     Ok(Ok(x)) if x.same(v) => {}
                     Ok(Ok(x)) => return Outcome::fail(true, "map-key", sig(d, "yields-unsanitized-value"), format!("Ok({})", x.to_json()), format!("Ok({})", v.to_json())),
